@@ -957,3 +957,64 @@ Proof.
   destruct (buried_meaning g _ _ Hc Hb) as (P & Q & E1 & E2 & E3).
   exists older, P, Q. auto.
 Qed.
+
+(** * restarts *)
+(** with forget_channel writing the tracker entry (the repaired code), the store is never behind:
+    in every reachable state the stored forget flag equals the one in memory, so a restart
+    restores exactly the state that was running - the monitors, the flags, the mark, the map -
+    and every pruning decision is the same with or without it *)
+Definition synced (sl : slot) : Prop :=
+  match sl with Ready _ _ _ fg fd _ => fd = fg | Stub _ => True end.
+Definition sinv (s : node) : Prop := forall id sl, In (id, sl) (chans s) -> synced sl.
+
+Lemma synced_flush sl : synced (flush_slot sl).
+Proof. destruct sl; cbn; auto. Qed.
+Lemma synced_restart_id sl : synced sl -> restart_slot sl = sl.
+Proof. destruct sl as [c|g a m fg fd gh]; cbn; [reflexivity|]. intros ->. reflexivity. Qed.
+
+Lemma step_sinv p s o s' out : forget_flush p = true -> sinv s -> step p s o = Ok (s', out) -> sinv s'.
+Proof.
+  unfold sinv. intros Hp Hs H. destruct o; cbn [step] in H.
+  - destruct (dbid id <=? hwm s); [inversion H; subst; exact Hs|].
+    destruct (max_channels p <=? nkeys (chans s)); [inversion H; subst; exact Hs|].
+    destruct (cfind id (chans s)); inversion H; subst; [exact Hs|]. cbn [chans with_chans]. intros id' sl Hin.
+    apply In_cput in Hin. destruct Hin as [Hin | Hin]; [inversion Hin; subst; exact I | eapply Hs; exact Hin].
+  - destruct (cfind id (chans s)) as [[c|g' a' m0 fg0 fd0 gh0]|] eqn:Ef; [| |inversion H; subst; exact Hs].
+    + inversion H; subst. cbn [chans with_chans]. intros id' sl Hin. apply In_mapslot in Hin. destruct Hin as [sl0 [_ ->]]. apply synced_flush.
+    + destruct (cfg_eqb g g'); inversion H; subst; exact Hs.
+  - destruct (cfind id (chans s)) as [[c|g' a' m0 fg0 fd0 gh0]|] eqn:Ef; inversion H; subst; [| |exact Hs]; cbn [chans]; intros id' sl Hin.
+    + apply In_cdel in Hin. eapply Hs; exact Hin.
+    + rewrite Hp in Hin. apply In_mapslot in Hin. destruct Hin as [sl0 [_ ->]]. apply synced_flush.
+  - inversion H; subst. cbn [chans with_chans]. intros id' sl Hin. destruct (existsb _ (chans s)).
+    + apply In_mapslot in Hin. destruct Hin as [sl0 [_ ->]]. apply synced_flush.
+    + apply filter_In in Hin. destruct Hin as [Hin _]. eapply Hs; exact Hin.
+  - destruct (U32MAX <=? theight s); [discriminate|]. apply bind_ok in H. destruct H as [l [El H]]. inversion H; subst. cbn [chans].
+    intros id' sl Hin. apply In_mapslot in Hin. destruct Hin as [sl0 [_ ->]]. apply synced_flush.
+  - destruct (chain s) as [|b rest]; [inversion H; subst; exact Hs|].
+    apply bind_ok in H. destruct H as [l [El H]]. inversion H; subst. cbn [chans].
+    intros id' sl Hin. apply In_mapslot in Hin. destruct Hin as [sl0 [_ ->]]. apply synced_flush.
+  - inversion H; subst. cbn [chans with_chans]. intros id' sl Hin. apply In_mapslot in Hin. destruct Hin as [sl0 [Hin ->]].
+    rewrite (synced_restart_id _ (Hs _ _ Hin)). eapply Hs; exact Hin.
+Qed.
+
+Lemma nrun_sinv p ops : forget_flush p = true -> forall s s', sinv s -> nrun p s ops = Ok s' -> sinv s'.
+Proof.
+  intros Hp. induction ops as [|o r IH]; intros s s' Hi Hr; cbn [nrun] in Hr.
+  - inversion Hr; subst. exact Hi.
+  - apply bind_ok in Hr. destruct Hr as [[s1 out] [E Hr]]. eapply IH; [eapply step_sinv; eassumption | exact Hr].
+Qed.
+
+Lemma map_slot_id (f : slot -> slot) (l : cmap) :
+  (forall id sl, In (id, sl) l -> f sl = sl) -> map (fun x => (fst x, f (snd x))) l = l.
+Proof.
+  induction l as [|[k w] r IH]; intros H; cbn [map fst snd]; [reflexivity|].
+  rewrite (H k w (or_introl eq_refl)), IH; [reflexivity|]. intros id sl Hin. apply (H id sl). right; exact Hin.
+Qed.
+
+Theorem restart_changes_nothing p h ops s :
+  forget_flush p = true -> nrun p (init_node h) ops = Ok s -> step p s Restart = Ok (s, Done).
+Proof.
+  intros Hp Hr. assert (Hs : sinv s) by (eapply nrun_sinv; [exact Hp | | exact Hr]; intros id sl []).
+  cbn [step]. rewrite map_slot_id; [destruct s; reflexivity|].
+  intros id sl Hin. apply synced_restart_id. eapply Hs; exact Hin.
+Qed.
